@@ -1135,11 +1135,18 @@ class Client():
                                       ('errored', self.respondent.errored),
                                       ('error', self.respondent.error),
                                      ])
+                    redirected = False
                     if (self.respondent.redirectable and self.respondent.redirectant
                             and self.respondent.headers.get('location')):
                         self.redirects.append(copy.copy(response))
-                        self.redirect()
-                    else:
+                        try:
+                            self.redirect()
+                            redirected = True
+                        except (ValueError, OSError) as ex:  # bad, unresolvable or refused location
+                            self.redirects.pop()  # not followed so deliver it as errored response
+                            response['errored'] = True
+                            response['error'] = "Redirect failed: {0}".format(ex)
+                    if not redirected:
                         if self.redirects:
                             response['redirects'] = copy.copy(self.redirects)
                         self.redirects = []
